@@ -110,6 +110,7 @@ class UnitGen:
                 opts = {'anchors': anchors if self.fn_modes[f.path] == 'verify' else [],
                         'sites': dict([('*', m.sitedefault)] if m.sitedefault else [], **{str(k): v for k, v in f.sites.items()}),
                         'lifts': {str(k): v for k, v in f.lifts.items()},
+                        'loop_anchors': {str(k): lp.anchor for k, lp in f.loops.items() if getattr(lp, 'anchor', None)},
                         'substs': [[a, b] for (a, b, _) in f.substs],
                         'renames': f.renames, 'aliases': f.aliases,
                         'rules': scoped_rules(self.rules_text, f.path)}
@@ -498,12 +499,17 @@ class UnitGen:
             if '__vp_' in t.replace('__vp_scrut', '').replace('__vp_self', '').replace('__vp_ret', '').replace('__vp_k', '').replace('__vp_eta', '').replace('__vp_s', '').replace('__vp_i', ''):
                 raise GenError('internal: unreplaced marker in %s: %s' % (fnpath, t))
             self.lines.append(Line(base + t, kind='body', fn=fnpath, src=(file, l)))
+        vanished_loops = set(io.get('vanished_loops') or [])
+        vanished_proofs = set(io.get('vanished_proofs') or [])
         for p in f.proofs:
-            if p.id not in used_proofs:
+            if p.id not in used_proofs and p.id not in vanished_proofs:
                 raise GenError('lost anchor: proof block %s of %s was not placed' % (p.id, fnpath))
         for n in f.loops:
-            if n not in used_loops:
+            if n not in used_loops and n not in vanished_loops:
                 raise GenError('lost anchor: loop %d of %s does not exist (function has %d loops)' % (n, fnpath, io['loops']))
+        if vanished_loops:
+            # a named loop that is gone: its contract constrains nothing any more; the function's other obligations decide
+            self.notes = getattr(self, 'notes', []) + ['%s: contract loop(s) %s no longer exist in the source; their clauses were dropped' % (fnpath, sorted(vanished_loops))]
         for n in f.dasserts:
             if n >= io['dasserts']:
                 raise GenError('lost anchor: debug_assert #%d of %s does not exist' % (n, fnpath))
